@@ -60,6 +60,34 @@ def opLll : Handler := fun args impl =>
       (model, v)
   | _ => bad
 
+/-- `lll.x B`: as `lll`, for bases on which the floating-point run is exact by construction: the oracle
+is applied whatever the size of the intermediate integers; no textual comparison -/
+def opLllX : Handler := fun args impl =>
+  match args.mapM parseMat? with
+  | some [b] =>
+    let n := b.length
+    if n < 2 || !(NTV.Spec.Lll.isSquare b n) || NTV.Spec.Lll.det b == 0 then ("-", "skip:not-a-non-singular-square-basis")
+    else
+      let v := match impl.splitOn "|" with
+        | [bs, hs] =>
+          match parseMat? hs with
+          | some h =>
+            if bs == "nonint" then "fail:returned-basis-not-integral"
+            else match parseMat? bs with
+              | some b' =>
+                let why := NTV.Spec.Lll.whyNotReduced b' delta eta
+                first [
+                  (NTV.Spec.Lll.isSquare h n, "H-shape"),
+                  (NTV.Spec.Lll.isSquare b' n, "B'-shape"),
+                  ((NTV.Spec.Lll.det h).natAbs == 1, "det-H-not-unit"),
+                  (NTV.Spec.Lll.mul h b == b', "B'-differs-from-H*B"),
+                  (NTV.Spec.Lll.isReduced b' delta eta, why)]
+              | none => "fail:unexpected-" ++ impl
+          | none => "fail:unexpected-" ++ impl
+        | _ => "fail:unexpected-" ++ impl
+      ("-", v)
+  | _ => bad
+
 /-- parse `x1,x2,…:val` -/
 def parseEntry? (s : String) : Option (List Int × Option Int) :=
   match s.splitOn ":" with
@@ -165,7 +193,7 @@ def opNroots : Handler := fun args impl =>
   | _ => bad
 
 def ops : List (String × Handler) :=
-  [("lll", opLll), ("lll.scaled", fun args impl => match args with
+  [("lll", opLll), ("lll.x", opLllX), ("lll.scaled", fun args impl => match args with
       | [b, k] => if k.toInt?.isSome then opLll [b] impl else bad
       | _ => bad), ("enum", opEnum), ("chval", opChval), ("muk", opMuk), ("nroots", opNroots)]
 end NTV.Driver.C20
